@@ -431,7 +431,7 @@ func genSenderFaults(armored bool) func(ctx *Ctx, emit func(Case)) {
 				ks := []int{3 + r.Intn(3), total - 1 - r.Intn(3)}
 				if !ctx.Quick {
 					ks = nil
-					for k := 0; k < total; k += 2 {
+					for k := r.Intn(4); k < total; k += 4 {
 						ks = append(ks, k)
 					}
 				}
